@@ -2,7 +2,7 @@
 # detection robustness: every seeded change against the check(s) that caught it in the matrix, at other VERIF_SEED values
 cd /verif
 seeds=${1:-2,3,4}
-ids=$(ls seeded | grep -E '^C[0-9]+[a-z]$')
+pat=${2:-.}; ids=$(ls seeded | grep -E "^C[0-9]+[a-z]$" | grep -E "$pat")
 lane() { for id in "$@"; do p=${id:0:3}
   # C06d / C19d / C15e belong to another property (see DESIGN.md section 10)
   case $id in C06d|C19d) p=C11;; C15e) p=C17;; esac
